@@ -442,9 +442,7 @@ func (m *fcMachine) blocked(who string, b bool, off, limit, sent int64, reported
 		m.cls["blocked"] = true
 		return nil
 	}
-	if rem == 0 && limit != 0 && !reported[limit] {
-		return vf.Bad("C04/blocked/missed", "%s is out of credit at limit %d (never reported) but IsNewlyBlocked=false", who, limit)
-	}
+	// Not reporting at all is allowed by the property ("at most once"; RFC 9000 4.1: SHOULD).
 	return nil
 }
 
@@ -498,8 +496,10 @@ func (m *fcMachine) recv(s *fcStream, off int64, fin, reset bool, reliable int64
 			return vf.Bad("C04/recv/unexpected-error", "%s returned %v", what, err)
 		}
 	case fsErr && !fcErrS && !fcErrC:
-		if !isTE(err, qerr.FinalSizeError) {
-			return vf.Bad("C04/recv/final-size", "%s contradicts the final size but returned %v", what, err)
+		// final-size consistency (RFC 9000 4.5) is not part of C04: any outcome is accepted, but a
+		// FLOW_CONTROL_ERROR would be a false one; the history ends here
+		if isTE(err, qerr.FlowControlError) {
+			return vf.Bad("C04/recv/false-flow-control-error", "%s is within the advertised limits but returned %v", what, err)
 		}
 		m.dead = true
 		m.cls["final-size-error"] = true
@@ -604,15 +604,12 @@ func (m *fcMachine) read(s *fcStream, n int64) *vf.Verdict {
 		if !hs && (remS <= thr(s.win)-1 || remS == 0) {
 			return vf.Bad("C04/advertise/stalled", "stream %d: %d of advertised %d consumed (window %d) but AddBytesRead announces no stream window update", s.id, s.read, s.adv, s.win)
 		}
-		if hs && remS > thr(s.win)+1 {
-			return vf.Bad("C04/advertise/threshold", "stream %d: window update announced with %d of window %d still unused (threshold %.2f)", s.id, remS, s.win, protocol.WindowUpdateThreshold)
-		}
 		if hs {
 			s.flagS = true
 		}
-	} else if hs {
-		return vf.Bad("C04/advertise/after-final", "stream %d: stream window update announced although the final size is known", s.id)
 	}
+	// once the final size is known the peer needs no more stream credit: whether an update is still
+	// announced is left to the implementation (the property only constrains the values)
 	remC := m.advC - m.c
 	if !hc && (remC <= thr(m.winC)-1 || remC == 0) {
 		return vf.Bad("C04/advertise/stalled", "connection: %d of advertised %d consumed (window %d) but AddBytesRead announces no connection window update", m.c, m.advC, m.winC)
@@ -648,10 +645,7 @@ func (m *fcMachine) cancel(s *fcStream) *vf.Verdict {
 func (m *fcMachine) wuS(s *fcStream) *vf.Verdict {
 	winCBefore := m.winC
 	v := int64(s.fc.GetWindowUpdate(m.t()))
-	if s.final >= 0 {
-		if v != 0 {
-			return vf.Bad("C04/advertise/after-final", "stream %d: GetWindowUpdate=%d although the final size %d is known", s.id, v, s.final)
-		}
+	if s.final >= 0 && v == 0 {
 		if len(m.cbCalls) != 0 {
 			return vf.Bad("C04/autotune/conn-follow", "stream %d: connection window increase requested by a no-op stream update", s.id)
 		}
@@ -672,9 +666,6 @@ func (m *fcMachine) wuS(s *fcStream) *vf.Verdict {
 	}
 	if v <= s.adv {
 		return vf.Bad("C04/advertise/not-increasing", "stream %d: new MAX_STREAM_DATA %d does not exceed the previous %d", s.id, v, s.adv)
-	}
-	if rem > thr(s.win)+1 {
-		return vf.Bad("C04/advertise/threshold", "stream %d: update issued with %d of window %d still unused", s.id, rem, s.win)
 	}
 	w := v - s.read
 	grown := maxGrow(s.win, m.p.StrMax)
@@ -747,9 +738,6 @@ func (m *fcMachine) wuC() *vf.Verdict {
 	}
 	if v <= m.advC {
 		return vf.Bad("C04/advertise/not-increasing", "connection: new MAX_DATA %d does not exceed the previous %d", v, m.advC)
-	}
-	if rem > thr(winBefore)+1 {
-		return vf.Bad("C04/advertise/threshold", "connection: update issued with %d of window %d still unused", rem, winBefore)
 	}
 	grown := maxGrow(winBefore, m.p.ConnMax)
 	if len(m.cbCalls) > 1 || (len(m.cbCalls) == 1 && (m.p.RTTUs == 0 || m.cbCalls[0] != grown-winBefore)) {
